@@ -458,10 +458,13 @@ def _annotate_ast_startpos(
             delta = (
                 aast_node.decorator_list[0].lineno - 1,
                 # The col_offset doesn't include the @
-                aast_node.decorator_list[0].col_offset - 1,
+                _char_col_offset(text, aast_node.decorator_list[0].lineno,
+                                 aast_node.decorator_list[0].col_offset) - 1,
             )
         else:
-            delta = (aast_node.lineno - 1, aast_node.col_offset)
+            delta = (aast_node.lineno - 1,
+                     _char_col_offset(text, aast_node.lineno,
+                                      aast_node.col_offset))
 
         # Not a multiline string literal.  (I.e., it could be a non-string or
         # a single-line string.)
@@ -521,6 +524,23 @@ def _annotate_ast_startpos(
     # as the type annotation say many things were impossible (slices indexed by FilePos
     # instead of integers.
     raise ValueError("Couldn't find exact position of %s" % (ast.dump(ast_node)))
+
+
+def _char_col_offset(text: FileText, lineno: int, col_offset: int) -> int:
+    """
+    Convert ``col_offset``, the UTF-8 byte offset that ``ast`` reports for
+    line ``lineno`` (1-based, relative to ``text``), into a character offset.
+
+      >>> _char_col_offset(FileText('x = "\xe9"; y = 1'), 1, 10)
+      9
+    """
+    lines = text.lines
+    if not 0 < lineno <= len(lines):
+        return col_offset
+    line = lines[lineno-1]
+    if line.isascii():
+        return col_offset
+    return len(line.encode("utf-8")[:col_offset].decode("utf-8", "replace"))
 
 
 def _split_code_lines(ast_nodes, text):
